@@ -246,12 +246,12 @@ class C03(core.Check):
         "the cell count for fixed total expansion, inversion of the progression, of Chop and of Grading, guards, the known-finding "
         "counterexample, and end-to-end statements for the ten pairs on the model with exact solver answers. Validator-checked "
         "only: that log/brentq/pow of the implementation meet their specifications (float rounding, scipy); rejections raised "
-        "inside a solver are taken from the implementation. End-to-end reversal is proved for seven of the ten pairs (not for "
-        "(start, total), (end, total), (start, end)); for those validator identity + oracle. The bodies of the twelve "
+        "inside a solver are taken from the implementation. End-to-end reversal is proved for all ten pairs, the three "
+        "size+total / start+end pairs only for count >= 3 and under an existence hypothesis for the reversed ratio. The bodies of the twelve "
         "relations, of the simple validators and of Chop.invert are translated from the source text (ast) at every run and proved "
         "equal to the model (T_C03_translated_*); in those theorems log/int, ceil, brentq and fractional powers are oracle slots "
         "under the model's validators, and the brentq brackets / fcnt / fexp are pinned syntactically only. Chop.__post_init__ and "
-        "copy_preserving are interpreted from ast tables and proved equal to the model (round 6c); fcnt has no exact semantics. Round 6b: one tie theorem per relation; locals compared up to renaming."
+        "copy_preserving and Chop.calculate (interleaved loop, round 6d) are interpreted from ast tables and proved equal to the model; fcnt has no exact semantics. Round 6b: one tie theorem per relation; locals compared up to renaming."
     )
 
     # ------------------------------------------------------------------ generators
